@@ -138,8 +138,15 @@ func (m *Memory) Remove(node ocispec.Descriptor) []ocispec.Descriptor {
 		// not remove the entry.
 		if len(predecessorEntry) == 0 {
 			delete(m.predecessors, successorKey)
-			if _, exists := m.nodes[successorKey]; exists {
-				danglings = append(danglings, m.nodes[successorKey])
+			if desc, exists := m.nodes[successorKey]; exists {
+				danglings = append(danglings, desc)
+			} else {
+				// known through this link only (e.g. stored before a reload): still dangling
+				danglings = append(danglings, ocispec.Descriptor{
+					MediaType: successorKey.MediaType,
+					Digest:    successorKey.Digest,
+					Size:      successorKey.Size,
+				})
 			}
 		}
 	}
